@@ -17,12 +17,14 @@ pub struct Dashed {
     pub pieces: Vec<Sub>,
     /// smallest distance (along the path) between a dash boundary and a vertex / subpath end
     pub min_boundary_to_vertex: f64,
+    /// the same for the two ends of each subpath only: a boundary there decides whether a piece exists at all
+    pub min_boundary_to_end: f64,
     pub on_length: f64,
 }
 
 /// the dash pattern as the statement defines it
 pub fn dash_model(subs: &[Sub], array: &[f32], offset: f32) -> Dashed {
-    let mut out = Dashed { pieces: Vec::new(), min_boundary_to_vertex: f64::INFINITY, on_length: 0. };
+    let mut out = Dashed { pieces: Vec::new(), min_boundary_to_vertex: f64::INFINITY, min_boundary_to_end: f64::INFINITY, on_length: 0. };
     let mut pat: Vec<f64> = array.iter().map(|v| *v as f64).collect();
     if pat.len() % 2 == 1 {
         let c = pat.clone();
@@ -69,6 +71,10 @@ pub fn dash_model(subs: &[Sub], array: &[f32], offset: f32) -> Dashed {
                 if bd > -1. && bd < total + 1. {
                     for c in &cum {
                         out.min_boundary_to_vertex = out.min_boundary_to_vertex.min((bd - c).abs());
+                    }
+                    // (the start of the pattern at the start of the subpath under a zero offset is exact for everybody)
+                    if !(bd == 0. && phase == 0.) {
+                        out.min_boundary_to_end = out.min_boundary_to_end.min(bd.abs()).min((bd - total).abs());
                     }
                 }
             }
@@ -129,6 +135,9 @@ struct Case {
     path: Path,
     style: StrokeStyle,
     t: Transform,
+    /// every length, dash entry and offset is a whole number and every segment length is exact (axis-aligned or
+    /// Pythagorean): a dash boundary that falls on a vertex does so exactly, for the library as for the model
+    exact: bool,
 }
 
 fn gen_case(rng: &mut Rng) -> Case {
@@ -225,7 +234,7 @@ fn gen_case(rng: &mut Rng) -> Case {
         dash_offset: offset,
     };
     let t = if rng.chance(0.6) { Transform::identity() } else { gen_transform_for_stroke(rng, w, h) };
-    Case { w, h, path, style, t }
+    Case { w, h, path, style, t, exact: false }
 }
 
 /// Whole-number geometry: axis-aligned polylines with whole side lengths, whole dash lengths and offsets, so
@@ -250,7 +259,7 @@ fn gen_integer_case(rng: &mut Rng) -> Case {
         let circ = (std::f64::consts::TAU * r) as f32;
         let dash = if rng.chance(0.5) { vec![circ * 2., 10.] } else { vec![(circ * rng.range(0.5, 0.95) as f32).floor(), rng.int(3, 12) as f32] };
         let style = StrokeStyle { width: rng.int(1, 4) as f32, cap: LineCap::Round, join: LineJoin::Round, miter_limit: 4., dash_array: dash, dash_offset: 0. };
-        return Case { w, h, path: Path { ops, winding: Winding::NonZero }, style, t: Transform::identity() };
+        return Case { w, h, path: Path { ops, winding: Winding::NonZero }, style, t: Transform::identity(), exact: false };
     }
     if rng.chance(0.15) {
         // out along a line and straight back along it: the dash that turns around there keeps its (round) join
@@ -261,7 +270,7 @@ fn gen_integer_case(rng: &mut Rng) -> Case {
         ops.push(PathOp::LineTo(Point::new(x2, y)));
         // (wide enough for a pixel to lie well inside the half disc of the join alone)
         let style = StrokeStyle { width: rng.int(9, 15) as f32, cap: LineCap::Round, join: LineJoin::Round, miter_limit: 4., dash_array: vec![(x1 - x0) + rng.int(3, 12) as f32, rng.int(3, 9) as f32], dash_offset: 0. };
-        return Case { w, h, path: Path { ops, winding: Winding::NonZero }, style, t: Transform::identity() };
+        return Case { w, h, path: Path { ops, winding: Winding::NonZero }, style, t: Transform::identity(), exact: true };
     }
     if rng.chance(0.6) {
         // a rectangle (closed or left open), possibly walked from another corner
@@ -300,7 +309,144 @@ fn gen_integer_case(rng: &mut Rng) -> Case {
         dash_array: dash,
         dash_offset: rng.int(-80, 120) as f32,
     };
-    Case { w, h, path: Path { ops, winding: Winding::NonZero }, style, t: Transform::identity() }
+    Case { w, h, path: Path { ops, winding: Winding::NonZero }, style, t: Transform::identity(), exact: true }
+}
+
+/// Polylines whose every segment has a whole-number length (axis-aligned or a Pythagorean vector such as
+/// (20,21) of length 29), whole-number dash entries picked among those lengths and their sums, and offsets that are
+/// whole numbers, -0.0, or exact multiples of the pattern length of either sign: dash boundaries land exactly on
+/// vertices and on the end of closed subpaths. All arithmetic of the dasher is exact here, so what happens at such a
+/// boundary is defined (the piece ending there is capped along the incoming segment, the piece starting there along
+/// the outgoing one, and a dash that reaches the end of a closed subpath while the pattern is on at its start is
+/// one piece with a join there) - for any cap and join.
+fn gen_exact_case(rng: &mut Rng) -> Case {
+    const VECS: [(i64, i64, i64); 8] = [(3, 4, 5), (6, 8, 10), (9, 12, 15), (12, 16, 20), (5, 12, 13), (8, 15, 17), (20, 21, 29), (7, 24, 25)];
+    let step = |rng: &mut Rng| -> (i64, i64, i64) {
+        if rng.chance(0.4) {
+            let n = rng.int(5, 30);
+            if rng.chance(0.5) { (n * if rng.chance(0.5) { 1 } else { -1 }, 0, n) } else { (0, n * if rng.chance(0.5) { 1 } else { -1 }, n) }
+        } else {
+            let (a, b, c) = *rng.pick(&VECS);
+            let (a, b) = if rng.chance(0.5) { (a, b) } else { (b, a) };
+            (a * if rng.chance(0.5) { 1 } else { -1 }, b * if rng.chance(0.5) { 1 } else { -1 }, c)
+        }
+    };
+    let w = rng.int(44, 72) as i64;
+    let h = rng.int(44, 72) as i64;
+    let mut pts: Vec<(i64, i64)> = Vec::new();
+    let mut lens: Vec<i64> = Vec::new();
+    let closed;
+    if rng.chance(0.5) {
+        // closed: a right triangle with axis-aligned legs, a rectangle, or a parallelogram on two exact vectors
+        closed = true;
+        loop {
+            pts.clear();
+            lens.clear();
+            let (x0, y0) = (rng.int(8, w - 8), rng.int(8, h - 8));
+            let (u, v) = (step(rng), step(rng));
+            let cross = u.0 * v.1 - u.1 * v.0;
+            let dot = u.0 * v.0 + u.1 * v.1;
+            if cross == 0 || (dot as f64).abs() > 0.8 * (u.2 * v.2) as f64 {
+                continue;
+            }
+            pts.push((x0, y0));
+            pts.push((x0 + u.0, y0 + u.1));
+            pts.push((x0 + u.0 + v.0, y0 + u.1 + v.1));
+            lens.push(u.2);
+            lens.push(v.2);
+            let tri = rng.chance(0.4);
+            if tri {
+                // the closing edge is -(u+v): exact only when u and v are the legs of an exact triangle
+                let (cx, cy) = (u.0 + v.0, u.1 + v.1);
+                let l2 = cx * cx + cy * cy;
+                let l = (l2 as f64).sqrt().round() as i64;
+                if l * l != l2 {
+                    continue;
+                }
+                lens.push(l);
+            } else {
+                pts.push((x0 + v.0, y0 + v.1));
+                lens.push(u.2);
+                lens.push(v.2);
+            }
+            if pts.iter().all(|p| p.0 >= 6 && p.0 <= w - 6 && p.1 >= 6 && p.1 <= h - 6) {
+                break;
+            }
+        }
+    } else {
+        closed = false;
+        'outer: loop {
+            pts.clear();
+            lens.clear();
+            pts.push((rng.int(8, w - 8), rng.int(8, h - 8)));
+            let n = rng.int(1, 4);
+            let mut prev: Option<(i64, i64, i64)> = None;
+            for _ in 0..n {
+                let u = step(rng);
+                if let Some(p) = prev {
+                    let dot = p.0 * u.0 + p.1 * u.1;
+                    // no reversals, no near-reversals
+                    if (dot as f64) < -0.5 * (p.2 * u.2) as f64 {
+                        continue 'outer;
+                    }
+                }
+                let l = *pts.last().unwrap();
+                let q = (l.0 + u.0, l.1 + u.1);
+                if q.0 < 6 || q.0 > w - 6 || q.1 < 6 || q.1 > h - 6 {
+                    continue 'outer;
+                }
+                pts.push(q);
+                lens.push(u.2);
+                prev = Some(u);
+            }
+            break;
+        }
+    }
+    let mut ops: Vec<PathOp> = Vec::new();
+    for (k, p) in pts.iter().enumerate() {
+        let q = Point::new(p.0 as f32, p.1 as f32);
+        ops.push(if k == 0 { PathOp::MoveTo(q) } else { PathOp::LineTo(q) });
+    }
+    if closed {
+        ops.push(PathOp::Close);
+    }
+    // dash entries: lengths of the path's own segments, sums of the first few, halves, and anything
+    let total_path: i64 = lens.iter().sum();
+    let nd = rng.int(1, 4) as usize;
+    let mut dash: Vec<f32> = Vec::new();
+    for _ in 0..nd {
+        let v = match rng.below(6) {
+            0 | 1 => *rng.pick(&lens),
+            2 => lens[..1 + rng.below(lens.len() as u64) as usize].iter().sum(),
+            3 => total_path,
+            4 => {
+                let l = *rng.pick(&lens);
+                if l % 2 == 0 { l / 2 } else { l }
+            }
+            _ => rng.int(1, 30),
+        };
+        dash.push(v.max(1) as f32);
+    }
+    let period: f32 = dash.iter().sum::<f32>() * if dash.len() % 2 == 1 { 2. } else { 1. };
+    let offset = match rng.below(8) {
+        0 => 0.,
+        1 => -0.0,
+        2 => -period * rng.int(1, 3) as f32,
+        3 => period * rng.int(1, 3) as f32,
+        4 => dash[0],
+        5 => -dash[0],
+        6 => *rng.pick(&lens) as f32,
+        _ => rng.int(-60, 60) as f32,
+    };
+    let style = StrokeStyle {
+        width: rng.int(4, 10) as f32,
+        cap: *rng.pick(&[LineCap::Butt, LineCap::Butt, LineCap::Square, LineCap::Round]),
+        join: *rng.pick(&[LineJoin::Miter, LineJoin::Round, LineJoin::Bevel]),
+        miter_limit: 4.,
+        dash_array: dash,
+        dash_offset: offset,
+    };
+    Case { w: w as i32, h: h as i32, path: Path { ops, winding: Winding::NonZero }, style, t: Transform::identity(), exact: true }
 }
 
 fn case_desc(c: &Case) -> J {
@@ -322,7 +468,9 @@ fn run_case(c: &Case, st: &mut Stats, want: bool, known: &crate::known::Known) -
     let subs = subpaths(&c.path, 1);
     let model = dash_model(&subs, &c.style.dash_array, c.style.dash_offset);
     let orientation_free = c.style.cap == LineCap::Round && c.style.join == LineJoin::Round;
-    if model.min_boundary_to_vertex < 0.02 && !orientation_free {
+    // (round caps and joins make the direction of a sliver of a piece next to a vertex irrelevant, but not whether
+    // there is such a sliver at the very start or end of a subpath: it would be a full round dot)
+    if (model.min_boundary_to_vertex < 0.02 && !orientation_free || model.min_boundary_to_end < 0.02) && !c.exact {
         st.add("cases_skipped_boundary_on_vertex", 1);
         return co;
     }
@@ -382,7 +530,7 @@ fn run_case(c: &Case, st: &mut Stats, want: bool, known: &crate::known::Known) -
     if let Some(q) = off_path {
         co.viol("C09", format!("dash_path emits the point ({:.3},{:.3}) which is not on the input path", q.x, q.y));
     }
-    if pieces != model.pieces.len() && model.min_boundary_to_vertex > 0.02 {
+    if pieces != model.pieces.len() && (model.min_boundary_to_vertex > 0.02 || c.exact) {
         co.viol("C09", format!("dash_path emits {} connected pieces, the pattern gives {}", pieces, model.pieces.len()));
     }
     // pixel level
@@ -418,6 +566,7 @@ fn directed() -> Vec<Case> {
         path: Path { ops, winding: Winding::NonZero },
         style: StrokeStyle { width, cap, join, miter_limit: 4., dash_array: dash, dash_offset: off },
         t: Transform::identity(),
+        exact: false,
     };
     let p = |x: f32, y: f32| Point::new(x, y);
     let rect = |x: f32, y: f32, w: f32, h: f32| vec![PathOp::MoveTo(p(x, y)), PathOp::LineTo(p(x + w, y)), PathOp::LineTo(p(x + w, y + h)), PathOp::LineTo(p(x, y + h)), PathOp::Close];
@@ -467,6 +616,16 @@ pub fn run(ctx: &Ctx) -> Outcome {
     run_cases(ctx, &mut out, SubSpec { name: "dashed_strokes", cases: ctx.n(30_000, 800_000), exhaustive: false, max_secs: if ctx.quick() { 40. } else { 900. } }, |i, want, st| {
         let mut rng = ctx.rng("dashed_strokes", i);
         let c = if i % 6 == 5 { gen_integer_case(&mut rng) } else { gen_case(&mut rng) };
+        run_case(&c, st, want, &ctx.known)
+    });
+    run_cases(ctx, &mut out, SubSpec { name: "dash_boundaries_exactly_on_vertices", cases: ctx.n(6_000, 300_000), exhaustive: false, max_secs: if ctx.quick() { 30. } else { 600. } }, |i, want, st| {
+        let mut rng = ctx.rng("dash_boundaries_exactly_on_vertices", i);
+        let c = gen_exact_case(&mut rng);
+        let subs = subpaths(&c.path, 1);
+        let m = dash_model(&subs, &c.style.dash_array, c.style.dash_offset);
+        if m.min_boundary_to_vertex == 0. {
+            st.add("cases_with_a_dash_boundary_exactly_on_a_vertex", 1);
+        }
         run_case(&c, st, want, &ctx.known)
     });
     // a pattern whose total is not positive paints nothing
